@@ -41,6 +41,8 @@ struct Case {
     /// for the AC-canonicaliser (Canon.v): number of shared state variables, the selections of them that are the variables
     /// of A and of B, and which shared variables are literally zero
     canon: Option<(usize, Vec<usize>, Vec<usize>, Vec<bool>)>,
+    /// compared in plain f64 only (quick tier, configurations whose programs are too large for the per-change check)
+    oracle_only: bool,
 }
 
 fn tracer<R: Residual + 'static>(m: Arc<R>) -> Tracer {
@@ -81,6 +83,7 @@ fn case<A: Residual + 'static, B: Residual + 'static>(
         rho_a: maxrho(a),
         rho_b: maxrho(b),
         canon: None,
+        oracle_only: false,
     }
 }
 
@@ -206,8 +209,10 @@ fn cases(full: bool) -> Vec<Case> {
         configs::pcsaft_multi(&[(&["propane"], "gross2001.json"), (&["acetone"], "gross2006.json")], None), 400.0));
     // ---------- generic: every mixture configuration of the shared list, through `subset` (itself decided above):
     //   permutation  M  vs  M.subset(rotation),   padding  M.subset(all but one)  vs  M with that mole number zero
-    for cfg in configs::all(full).into_iter().filter(|c| c.ncomp >= 2 && (full || c.core)) {
+    for cfg in configs::all(true).into_iter().chain(configs::literal()).filter(|c| c.ncomp >= 2) {
         let n = cfg.ncomp;
+        // non-core configurations (large programs): the quick tier compares them in plain f64 only
+        let oracle_only = !full && !cfg.core;
         let id: Vec<usize> = (0..n).collect();
         let perm: Vec<usize> = (0..n).map(|j| (j + 1) % n).collect();
         {
@@ -222,6 +227,7 @@ fn cases(full: bool) -> Vec<Case> {
             let mut sel_b = vec![0, 1];
             sel_b.extend(perm.iter().map(|&i| 2 + i));
             c.canon = Some((n + 2, (0..n + 2).collect(), sel_b, vec![false; n + 2]));
+            c.oracle_only = oracle_only;
             v.push(c);
         }
         for drop in [n - 1, 0] {
@@ -244,6 +250,7 @@ fn cases(full: bool) -> Vec<Case> {
             let mut sel_a = vec![0, 1];
             sel_a.extend(keep.iter().map(|&i| 2 + i));
             c.canon = Some((n + 2, sel_a, (0..n + 2).collect(), zs));
+            c.oracle_only = oracle_only;
             v.push(c);
         }
     }
@@ -309,6 +316,13 @@ pub fn run(out_dir: &str, tier: &str, seed: u64, only: Option<String>) -> Value 
             let frac = if rng.f64() < 0.5 { rng.range(0.02, 0.9) } else { rng.log_range(1e-6, 0.9) };
             RState { t, v: ntot / (frac * rho_max), n }
         };
+        let mut used = Vec::new();
+        let mut canon_names: Vec<String> = Vec::new();
+        let (mut leaks_a, mut leaks_b) = (0i64, 0i64); // constants that differ between states; -1: the shape changes
+        let (mut ninstr_a, mut ninstr_b) = (0usize, 0usize);
+        let mut consts_identical = false;
+        let mut unsupported = (Vec::new(), Vec::new());
+        if !c.oracle_only {
         let states: Vec<(RState, RState)> = (0..k_states)
             .map(|_| {
                 let s = sample(&mut rng);
@@ -320,8 +334,6 @@ pub fn run(out_dir: &str, tier: &str, seed: u64, only: Option<String>) -> Value 
         let pb0 = (c.b)(&states[0].1);
         let mut rows_a = Vec::new();
         let mut rows_b = Vec::new();
-        let mut used = Vec::new();
-        let (mut leaks_a, mut leaks_b) = (0i64, 0i64); // constants that differ between states; -1: the shape changes
         for (s, sb) in &states {
             let (pa, pb) = ((c.a)(s), (c.b)(sb));
             let (ca, cb) = (compare(&pa0, &pa), compare(&pb0, &pb));
@@ -354,7 +366,6 @@ pub fn run(out_dir: &str, tier: &str, seed: u64, only: Option<String>) -> Value 
                 .replace("DIRSA", &format!("[{}]", da.join("; ")))
                 .replace("DIRSB", &format!("[{}]", db.join("; "))),
         );
-        let mut canon_names: Vec<String> = Vec::new();
         if let Some((nv, sa, sb, zv)) = &c.canon {
             let (text, names) = emit::canon_block(&pa0, &pb0, *nv, sa, sb, zv, "C09_canonical_programs_agree");
             v.push_str(&text);
@@ -364,6 +375,11 @@ pub fn run(out_dir: &str, tier: &str, seed: u64, only: Option<String>) -> Value 
             v.push_str("Lemma pair_identical : prog_eqb A_prog B_prog = true.\nProof. vm_compute. reflexivity. Qed.\nDefinition pair_agree := C09_identical_programs_agree A_prog B_prog pair_identical.\nCheck pair_agree.\n");
         }
         std::fs::write(format!("{out_dir}/{}.v", c.name), v).unwrap();
+            ninstr_a = pa0.instrs.len();
+            ninstr_b = pb0.instrs.len();
+            consts_identical = pa0.consts.len() == pb0.consts.len() && pa0.consts.iter().zip(&pb0.consts).all(|(x, y)| x.to_bits() == y.to_bits());
+            unsupported = (pa0.unsupported.clone(), pb0.unsupported.clone());
+        }
         // implementation-level oracle in plain f64, and the maximum density (options!) for subset cases
         let mut worst = 0.0f64;
         let mut fails = Vec::new();
@@ -392,9 +408,9 @@ pub fn run(out_dir: &str, tier: &str, seed: u64, only: Option<String>) -> Value 
             "name": c.name, "kind": c.kind, "expect_identical": c.expect_identical, "canon_outputs": canon_names,
             "leaks": [leaks_a, leaks_b],
             "ndirs": c.dirs.len(), "dirs": c.dirs,
-            "ninstr_a": pa0.instrs.len(), "ninstr_b": pb0.instrs.len(),
-            "consts_identical": pa0.consts.len() == pb0.consts.len() && pa0.consts.iter().zip(&pb0.consts).all(|(x, y)| x.to_bits() == y.to_bits()),
-            "unsupported": [pa0.unsupported.clone(), pb0.unsupported.clone()],
+            "ninstr_a": ninstr_a, "ninstr_b": ninstr_b, "oracle_only": c.oracle_only,
+            "consts_identical": consts_identical,
+            "unsupported": [unsupported.0, unsupported.1],
             "states": used, "f64": {"states": k_f64, "worst_rel": worst, "failures": fails}, "max_density_failures": rho_fail,
         }));
     }
